@@ -78,7 +78,7 @@ extern ssize_t mpt_encode_cobs(MPT_STRUCT(encode_state) *info, const struct iove
 			 * Decoder consumes single encoded zero. */
 			dst[0] = 1;
 			dst[1] = 0;
-			len = 2;
+			len += 2;
 		}
 		/* cobs message termination */
 		else {
